@@ -33,6 +33,8 @@ partial def parseGV : List String → Option (GV × List String)
     | 'A' => arg.toNat?.bind fun n => (parseN n rest).map fun (vs, r) => (.array vs, r)
     | 'M' => arg.toNat?.bind fun n => (parseKV n rest).map fun (kvs, r) => (.map kvs, r)
     | 'T' => arg.toNat?.bind fun n => (parseF n rest).map fun (fs, r) => (.struct fs, r)
+    | 'V' => arg.toNat?.bind fun n => (parseF n rest).map fun (fs, r) => (.tm "tmv" true fs, r)    -- value-receiver MarshalText
+    | 'W' => arg.toNat?.bind fun n => (parseF n rest).map fun (fs, r) => (.tm "tmp" false fs, r)   -- pointer-receiver MarshalText
     | _ => none
 partial def parseN : Nat → List String → Option (List GV × List String)
   | 0, r => some ([], r)
